@@ -116,6 +116,24 @@ func c16ScopesSelfTest(c *core.Ctx) bool {
 			out[15] = ref("a__b", "var", 4)
 			return out
 		}, []string{"legal"}},
+		{"double underscore in C++", "msl", func(ls []L) []L {
+			out := append([]L{}, ls...)
+			out[6] = decl("u03b8__max", "var", "", 4)
+			out[15] = ref("u03b8__max", "var", 4)
+			return out
+		}, []string{"implres"}},
+		{"underscore + upper case in C++", "msl", func(ls []L) []L {
+			out := append([]L{}, ls...)
+			out[6] = decl("_Gx", "var", "", 4)
+			out[15] = ref("_Gx", "var", 4)
+			return out
+		}, []string{"implres"}},
+		{"double underscore is not a rule stated for HLSL", "hlsl", func(ls []L) []L {
+			out := append([]L{}, ls...)
+			out[6] = decl("a__b", "var", "", 4)
+			out[15] = ref("a__b", "var", 4)
+			return out
+		}, nil},
 		{"non-ASCII spelling", "msl", func(ls []L) []L {
 			out := append([]L{}, ls...)
 			out[6] = decl("é", "var", "", 4)
